@@ -38,6 +38,15 @@ def gen_body(rnd, ca, plat):
         toks = acetext.valid_text(rnd, ca, plat, "0", a, None)
         lines.append(pre + " ".join(toks))
         abstract.append(a)
+        if rnd.random() < 0.2:
+            # an entry that repeats the previous one, literally or with an overlapping port list: after the split
+            # two pieces read the same, and both must stay
+            b = dict(a)
+            if plat == "ios" and b["proto"] in (6, 17) and b["dport"] and b["dport"][0] == "eq" and rnd.random() < 0.7:
+                b["dport"] = ("eq", sorted({b["dport"][1][-1], rnd.choice([22, 80, 443, 8443, 514])}))
+            toks = acetext.valid_text(random.Random(1), ca, plat, "0", b, None)
+            lines.append(pre + " ".join(toks))
+            abstract.append(b)
     return lines, abstract
 
 
@@ -53,14 +62,15 @@ def correspond(ctx):
         pn, prn = rnd.random() < 0.3, rnd.random() < 0.3
         lines, abstract = gen_body(rnd, ca, plat)
         meta = {"k": "acl", "platform": plat, "to": to, "lines": lines, "abstract": abstract, "port_nr": pn,
-                "protocol_nr": prn, "grouped": rnd.random() < 0.3}
+                "protocol_nr": prn, "grouped": rnd.random() < 0.3,
+                "to_spelling": rnd.choice({"ios": ["ios", "ios", "cisco_ios"], "nxos": ["nxos", "nxos", "cnx", "cisco_nxos"]}[to])}
         metas.append(meta)
 
         def run(meta=meta):
             head = "ip access-list extended A" if meta["platform"] == "ios" else "ip access-list A"
             a = ca.Acl("\n".join([head] + meta["lines"]), platform=meta["platform"], port_nr=meta["port_nr"],
                        protocol_nr=meta["protocol_nr"])
-            a.platform = meta["to"]
+            a.platform = meta.get("to_spelling", meta["to"])
             l1 = [o.line for o in a.items]
             a.platform = meta["platform"]
             a.platform = meta["to"]
@@ -135,7 +145,7 @@ def oracle(ctx, kernel, meta):
         before = [o for o in _flat(a)]
         abstract = [by_id[id(o)] for o in before]
         seqs0 = [o.sequence for o in before]
-        a.platform = to
+        a.platform = meta.get("to_spelling", to)
     except Exception as ex:  # noqa
         import traceback
         frames = [(os.path.basename(fr.filename), fr.name) for fr in traceback.extract_tb(ex.__traceback__)]
@@ -193,6 +203,10 @@ def oracle(ctx, kernel, meta):
         return {"what": "extra entries after the conversion"}
     if a.name != "A":
         return {"what": "the ACL name changed"}
+    want_head = "ip access-list extended A" if to == "ios" else "ip access-list A"
+    if a.platform != to or a.line.split("\n")[0].strip() != want_head:
+        return {"what": f"after platform={meta.get('to_spelling', to)!r} the ACL reports platform {a.platform!r} and the "
+                        f"header {a.line.split(chr(10))[0]!r}; valid {to} syntax is {want_head!r}"}
     # there - back - there
     l1 = a.line
     a.platform = plat
